@@ -517,8 +517,7 @@ func (r *rewriter) rewriteStmt1(st ast.Stmt) []ast.Stmt {
 	case *ast.RangeStmt:
 		t := r.info.TypeOf(s.X)
 		if isChan(t) {
-			r.errorf(s.Pos(), "range over channel is not modelled")
-			return []ast.Stmt{s}
+			return []ast.Stmt{r.rewriteChanRange(s)}
 		}
 		if len(recvIn(s.X)) > 0 {
 			r.errorf(s.Pos(), "receive in range expression is not modelled")
@@ -825,6 +824,38 @@ func (r *rewriter) rewriteSelect(s *ast.SelectStmt) ast.Stmt {
 		}})
 	}
 	return &ast.BlockStmt{List: append(pre, sw)}
+}
+
+// rewriteChanRange: for k := range ch { body }  =>  { _c := ch; for { simrt.RecvWait(site, _c); k, _ok := <-_c; if !_ok { break }; body } }
+func (r *rewriter) rewriteChanRange(s *ast.RangeStmt) ast.Stmt {
+	if len(recvIn(s.X)) > 0 {
+		r.errorf(s.Pos(), "receive in range expression is not modelled")
+	}
+	s.X = r.expr(s.X)
+	s.Body.List = r.rewriteStmtList(s.Body.List)
+	tc := r.tmp("c")
+	okv := r.tmp("ok")
+	bind := &ast.AssignStmt{Lhs: []ast.Expr{tc}, Tok: token.DEFINE, Rhs: []ast.Expr{s.X}}
+	wait := &ast.ExprStmt{X: r.call("RecvWait", r.newSite(s.Pos(), "recv", false), tc)}
+	recv := &ast.UnaryExpr{Op: token.ARROW, X: tc}
+	var get []ast.Stmt
+	key := s.Key
+	if key == nil {
+		key = ast.NewIdent("_")
+	}
+	if s.Tok == token.ASSIGN && s.Key != nil {
+		get = append(get,
+			&ast.DeclStmt{Decl: &ast.GenDecl{Tok: token.VAR, Specs: []ast.Spec{&ast.ValueSpec{Names: []*ast.Ident{okv}, Type: ast.NewIdent("bool")}}}},
+			&ast.AssignStmt{Lhs: []ast.Expr{key, okv}, Tok: token.ASSIGN, Rhs: []ast.Expr{recv}})
+	} else {
+		get = append(get, &ast.AssignStmt{Lhs: []ast.Expr{key, okv}, Tok: token.DEFINE, Rhs: []ast.Expr{recv}})
+	}
+	stop := &ast.IfStmt{Cond: &ast.UnaryExpr{Op: token.NOT, X: okv}, Body: &ast.BlockStmt{List: []ast.Stmt{&ast.BranchStmt{Tok: token.BREAK}}}}
+	body := append([]ast.Stmt{wait}, get...)
+	body = append(body, stop)
+	body = append(body, s.Body.List...)
+	loop := &ast.ForStmt{Body: &ast.BlockStmt{List: body}}
+	return &ast.BlockStmt{List: []ast.Stmt{bind, loop}}
 }
 
 func (r *rewriter) rewriteMapRange(s *ast.RangeStmt) ast.Stmt {
